@@ -1,6 +1,8 @@
 (* C08 — pinned theorems.  This file contains statements, `exact`, and Print Assumptions only. *)
 From Coq Require Import List ZArith NArith.
 From GV Require Import Front.Infix Front.InfixProofs Front.OpLookup Front.OpLookupProofs.
+From GV Require Import Front.InfixComplete.
+From GV Require Import Front.SpanCheck Front.SpanCheckProofs Front.LayoutCheck Front.LayoutCheckProofs.
 Import ListNotations.
 
 (* The in-order traversal of the re-associated tree is the input chain. *)
@@ -46,3 +48,59 @@ Theorem C08_builtin_chains_never_conflict : forall (names : nat -> name) a0 rest
   exists t, reparse tbl a0 rest = Ok t.
 Proof. exact builtin_chains_never_conflict. Qed.
 Print Assumptions C08_builtin_chains_never_conflict.
+
+(* The conflict error is exact: when reparse reports conflicting fixities, no well-bracketed tree
+   has the chain as its yield. *)
+Theorem C08_conflict_means_no_wf_tree : forall (tbl : nat -> meta) a0 rest s n,
+  reparse tbl a0 rest = ErrConflict s n ->
+  ~ exists t, wf tbl t /\ yield t = TArg a0 :: ryield rest.
+Proof. exact conflict_means_no_wf_tree. Qed.
+Print Assumptions C08_conflict_means_no_wf_tree.
+
+(* Completeness: whenever a well-bracketed tree with that yield exists, reparse returns it. *)
+Theorem C08_wf_complete : forall (tbl : nat -> meta) a0 rest t,
+  wf tbl t -> yield t = TArg a0 :: ryield rest -> reparse tbl a0 rest = Ok t.
+Proof. exact wf_complete. Qed.
+Print Assumptions C08_wf_complete.
+
+(* Re-associating the flattening of an already well-bracketed tree returns that tree (the Rust
+   visitor re-visits re-associated sub-trees). *)
+Theorem C08_reparse_idempotent : forall (tbl : nat -> meta) t,
+  wf tbl t -> reparse tbl (fst (flat t)) (snd (flat t)) = Ok t.
+Proof. exact reparse_idempotent. Qed.
+Print Assumptions C08_reparse_idempotent.
+
+(* ---- verified validators run on the real parser's artefacts (tie V) ---- *)
+
+(* What the span checker's acceptance means: every span inside the source, children inside their
+   parent, siblings ordered and disjoint, the text at a leaf's span is the leaf's token. *)
+Theorem C08_spans_ok_sound : forall (src : list N) (t : stree),
+  spans_ok src t = true -> spans_wf src t.
+Proof. exact spans_ok_sound. Qed.
+Print Assumptions C08_spans_ok_sound.
+
+(* The layout algorithm only inserts virtual tokens: erasing them gives the raw token stream. *)
+Theorem C08_layout_preserves_tokens : forall (a b : list tok),
+  layout_ok true a b = true -> erase_virtual b = real_tokens a.
+Proof. exact layout_preserves_tokens. Qed.
+Print Assumptions C08_layout_preserves_tokens.
+
+(* ... and, when the run was cut short by an error, a prefix of it. *)
+Theorem C08_layout_preserves_prefix : forall (a b : list tok),
+  layout_ok false a b = true -> exists rest, real_tokens a = erase_virtual (trim b) ++ rest.
+Proof. exact layout_preserves_prefix. Qed.
+Print Assumptions C08_layout_preserves_prefix.
+
+(* On runs that end without error, virtual blocks and real brackets are balanced and nested. *)
+Theorem C08_layout_balanced : forall (a b : list tok),
+  layout_ok true a b = true -> dyck b.
+Proof. exact layout_balanced. Qed.
+Print Assumptions C08_layout_balanced.
+
+(* Every virtual block token carries the span of the next real token, of the previous one, or of
+   EOF. *)
+Theorem C08_layout_positions : forall (a b pre : list tok) (t : tok) (post : list tok),
+  layout_ok true a b = true -> b = pre ++ t :: post -> is_ocs t = true ->
+  neighbour (eof_of a) (last_real None pre) t post.
+Proof. exact layout_positions. Qed.
+Print Assumptions C08_layout_positions.
